@@ -237,7 +237,11 @@ var properties = map[string]*propDef{
 	},
 	"C15": {
 		Level: "exploration",
-		Rule:  "(engine under construction)",
+		Rule:  "a case is a seed (math/rand, uuid), a cluster of 1-3 nodes, name validation on or off, and 2-9 requests, each through a drawn gateway node: batched creates of 1-4 channels (index, fixed, variable-length, virtual, virtual index, free, free index, calculated; leaseholder unset, explicit or a node that does not exist; data channels refer to an index on the same node, on another node, to a key nothing has or to none; no option, RetrieveIfNameExists or OverwriteIfNameExistsAndDifferentProperties), renames (Rename, RenameMany, single-entry MapRename), deletes (Delete, DeleteMany, DeleteByName, DeleteManyByNames) and restarts of one node's distribution layer and engine over the same storage. Names come from an 11-entry pool with collisions, invalid names and '_time' suffixes; targets are drawn from everything ever created (live, deleted, never created, internal). After every request and propagation in virtual time the model's live channels are compared with cluster metadata on every node and with every node's engine (directory listing + RetrieveChannel); keys are checked for uniqueness, embedded leaseholder and reuse; names for validity and uniqueness (validation on); deleted channels for being refused by retrieve, Framer.OpenWriter/OpenIterator and the engine's RetrieveChannel/OpenWriter/OpenIterator. non-trivial = >=1 channel deleted and more than the internal channels live",
+		Real:  []string{"a whole Synnax distribution layer per node, wired as core/pkg/distribution/mock wires it: aspen (cluster membership, kv gossip), channel service, framer (writer, iterator, relay, deleter), ontology, group, one pebble and one cesium per node on in-memory file systems — real code", "the cluster's goroutines run freely inside a testing/synctest bubble (virtual time, quiescence); case outcomes are a function of the request script (op tier), the harness waits for propagation instead of choosing interleavings"},
+		Stub:  []string{"transports: the repository's own in-memory mocks (aspen/transport/mock, distribution/transport/mock)", "math/rand and google/uuid seeded from the case", "no seeded goroutine scheduler and no message faults in this engine: requests are sequential; concurrency of channel requests is not explored"},
+		Assumptions: []string{"model: the set of live channels (key, leaseholder, name, data type, index, is_index, virtual) predicted from the requests, seeded with each node's internal channels; calculated channels are free and virtual and bring a '<name>_time' free index", "a FAILED request may leave behind any part of what it asked for (the statement does not make requests atomic) and nothing else; what it left is adopted and the two stores must still agree with each other", "with the two options, names within a batch are distinct, and MapRename gets one entry (otherwise outcomes depend on Go map order inside the service)", "when gossip of a write dies out (recorded C06 finding) the harness restarts the rumour with a change-nothing write at the authority, so the comparison is not blamed on C06"},
+		RequiredProbes: []string{"created_local", "created_remote", "renamed_local", "renamed_remote", "deleted_local", "deleted_remote", "free-at-bootstrapper", "free-via-peer", "create_batch_failed", "delete_batch_failed", "rename_batch_failed", "failed_request_partly_applied", "create_returned_existing_channel", "calculated_auto_index_created", "restart_services", "deleted_channel_refused_everywhere"},
 		Units: []unit{{
 			Name: "core-channel", Module: "core", Package: "./pkg/distribution/channel", Passes: []string{"detrange"}, Engines: []string{"c15"},
 			QuickBudget: 30 * time.Second, QuickWorkers: 8, ThoroughBudget: 12 * time.Minute, ThoroughWorkers: 16,
